@@ -13,7 +13,7 @@ from ..gen import docs as D
 from ..gen import queries as Q
 from ..gen.filters import FilterGen
 from ..gen.render import Renderer
-from ..run import Stats, hyp_run, mix
+from ..run import Stats, hyp_run, mix, rng_for
 from ..strict import canon, jeq, short
 
 import jsonpath
@@ -265,7 +265,7 @@ def t_random(seed, n):
 
     def body(x):
         doc, s = x
-        rng = random.Random(s)
+        rng = rng_for(s)
         stats.case()
         text = gen_text(rng, doc)
         ctx = CTX if "_" in text else None
@@ -419,7 +419,7 @@ def t_shared(seed, n):
 
     def body(x):
         docs, s = x
-        rng = random.Random(s)
+        rng = rng_for(s)
         stats.case()
         ctxs = [{"a": rng.choice([0, 1, 2, "a"]), "b": rng.choice([0, 1, 2, "b"]), "c": [rng.randint(0, 3)]} for _ in docs]
         base = rng.choice(docs)
@@ -514,7 +514,7 @@ def replay(case):
         return t_errors()
     try:
         for s in range(6):
-            rng = random.Random(s)
+            rng = rng_for(s)
             v = case.get("variant", "plain")
             judge(stats, loop, case["text"], case["doc"], case.get("ctx"), "wrapped" if v == "gathered" else v, rng)
     finally:
